@@ -32,11 +32,20 @@ META = dict(
          "positions), lr_direct_eq_iterative_budget (any sufficient growth budget vs any sufficient repetition budget), "
          "iterLoop_budget, iterLoop_no_hang, iterRef_plain. Hypotheses: a successful tail strictly advances (the property's "
          "exclusion of empty repetition bodies), a base match ends at or after the location; fatal errors propagate "
-         "identically, a non-match of base is MatchFirst's (farther of the seed's and base's location). PARTIAL: the step "
-         "from the transcribed parser (parseLR on a node table E=Forward(MatchFirst[And[E,t...],b])) to lrBody, and from "
-         "iterRef to the model's parse of And[b, ZeroOrMore(And[t...])], is NOT a theorem (whitespace pre-parsing and "
-         "parse actions / results names on the nodes in between are not covered) - equality of the real LR parse with the "
-         "real parse of the derived repetition grammar is decided by the real-code oracle on generated direct "
+         "identically, a non-match of base is MatchFirst's (farther of the seed's and base's location). On the "
+         "TRANSCRIBED PARSER: parseLR_body_eq_lrBody (the body parseLR hands to the growth loop for a node table "
+         "E=Forward(m), m=MatchFirst[sq,b], sq=And[E,t...] IS lrBody with base/tail := the plain model parser on b / on "
+         "the rest of the And, up to ParseElementEnhance's location fix-up) and parseLR_direct_eq_iterative_partial "
+         "(hence parseLR on E = enhFix(iterRef over the plain model parser), for every table, input, fuel, location, "
+         "acts) under explicit hypotheses: no parse actions / results names on E, m, sq; b and t... in a closed "
+         "Forward-free part of the table (parseLR_frame: there parseLR = parse for every environment); the And's "
+         "pre-parse does not move from where the Forward's ended; no growth of E in progress at that location; the tail "
+         "strictly advances (dischargeable: tailOf_strict + parse_lit1_strict when it starts with a one-character "
+         "operator literal); with actions: trial/action agreement. PARTIAL (named _partial): the last step from iterRef "
+         "over the model parser to the model's parse of a node table And[b, ZeroOrMore(And[t...])] is not proved "
+         "(wrappers/pre-parse of those nodes, manyLoop's budget), nor are rules with actions/names on E/m/sq or with "
+         "Forwards inside base/tail (parenthesised recursion) covered - equality of the real LR parse with the real "
+         "parse of the derived repetition grammar stays decided by the real-code oracle on generated direct "
          "left-recursive rule sets; indirect / mutual left recursion is the registered finding indirect_left_recursion "
          "(the real code returns the base case only) and is kept out of the generators.",
     note="Trusted: Lean kernel; axioms propext/Classical.choice/Quot.sound; the seed-growing model (in-growth memo entries as "
@@ -51,7 +60,9 @@ THEOREMS = ["PP.Parse.growLoop_peek_spec", "PP.Parse.growLoop_round_grows", "PP.
             "PP.Parse.lr_transparent_nonrec", "PP.Parse.lr_transparent_nonrec_fail",
             "PP.Parse.lr_direct_eq_iterative", "PP.Parse.lr_direct_eq_iterative_acts",
             "PP.Parse.lr_direct_eq_iterative_budget", "PP.Parse.iterLoop_budget", "PP.Parse.iterLoop_no_hang",
-            "PP.Parse.iterRef_plain", "PP.Parse.growLoop_lrBody_loop"]
+            "PP.Parse.iterRef_plain", "PP.Parse.growLoop_lrBody_loop",
+            "PP.Parse.parseLR_frame", "PP.Parse.parseLR_body_eq_lrBody", "PP.Parse.parseLR_direct_eq_iterative_partial",
+            "PP.Parse.growLoop_congr", "PP.Parse.growLoop_enhFix", "PP.Parse.tailOf_strict", "PP.Parse.parse_lit1_strict"]
 
 CAPS = [None, 1, 2, 4]
 
